@@ -7,6 +7,7 @@ Lemmas: `Lemmas/BuildArgs.lean`.
 -/
 import FiddleModel.Lemmas.BuildArgs
 import FiddleModel.Model.Call
+import FiddleModel.Lemmas.Basic
 
 namespace Fiddle
 open Sig
@@ -84,7 +85,6 @@ theorem C01_required_gap_raises (s : Sig) (d : Dict Val) (wf : ViewWF s)
     · rw [List.getElem?_eq_none hge] at hreq
       cases hreq
 
-deriving instance DecidableEq for Except
 
 /-- Concrete witnesses (the inputs that failed before the repair): a skipped slot with a
     default is filled with that default; a skipped required slot raises; `build` passes what the
